@@ -91,6 +91,8 @@ class Interp:
                 return self.env[n.id]
             if n.id in ('True', 'False', 'None'):
                 return {'True': True, 'False': False, 'None': None}[n.id]
+            if n.id == 'NotImplemented':
+                return NotImplemented
             raise Unsupported(f'unbound name {n.id}')
         if isinstance(n, ast.UnaryOp):
             v = self.ev(n.operand)
@@ -316,7 +318,35 @@ class NumInterp(Interp):
                 self._comp(n, gi + 1, acc)
         return acc
 
+    def run_stmt(self, st):
+        if isinstance(st, ast.AugAssign):
+            f = BIN.get(type(st.op))
+            if f is None:
+                raise Unsupported('augop')
+            val = self.ev(st.value)
+            t = st.target
+            if isinstance(t, ast.Subscript):
+                cont = self.ev(t.value)
+                idx = self.ev(t.slice)
+                try:
+                    cont[idx] = f(cont[idx], val)
+                except Exception as e:
+                    raise Unsupported(f'augassign {ast.unparse(t)}: {e}')
+                return
+            cur = self.ev(_as_load(t))
+            if isinstance(cur, self.np.ndarray):
+                cur[...] = f(cur, val)      # numpy in-place semantics: the array object keeps its identity
+                return
+            self.store(t, f(cur, val))
+            return
+        super().run_stmt(st)
+
     def store(self, t, v):
+        if isinstance(t, ast.Attribute):
+            base = self.ev(t.value)
+            if isinstance(base, dict):
+                base[t.attr] = v
+                return
         if isinstance(t, ast.Subscript):
             cont = self.ev(t.value)
             idx = self.ev(t.slice)
